@@ -82,6 +82,9 @@ def gen_points(rng, s):
         for _ in range(60):
             p = [ax[i][int(rng.integers(len(ax[i])))] for i in range(3)]
             pts.append((p, sum(special_tags(sp[i], p[i]) for i in range(3))))
+        combos = list(itertools.product(*[[h[i], -h[i], 0.0, 2 * h[i], -3 * h[i]] for i in range(3)]))
+        for i in rng.choice(len(combos), size=24, replace=False):
+            pts.append((list(combos[int(i)]), sum(special_tags(sp[k], combos[int(i)][k]) for k in range(3))))
     elif c in ("Cylinder", "CylinderSegment", "Circle", "Sphere"):
         if c == "Cylinder":
             r0, hh = s["dimension"][0] / 2, s["dimension"][1] / 2
@@ -96,6 +99,16 @@ def gen_points(rng, s):
         else:
             r0 = s["diameter"] / 2
             rs, zs, phis = [r0, 2 * r0], [r0, -r0], [0.0, np.pi / 2]
+        # exact coincidences of two or three special coordinates (edges, corners, their extensions): the random
+        # product below reaches them with probability ~1e-3 per point only
+        combos = [(r, z, ph) for r in rs + [0.0] for z in zs + [0.0] for ph in phis]
+        for i in rng.choice(len(combos), size=min(24, len(combos)), replace=False):
+            r, z, ph = combos[int(i)]
+            q = [r * np.cos(ph), r * np.sin(ph), z]
+            if rng.random() < 0.3:
+                nb = G.ulp_neighbours(np.asarray(q, float))
+                q = nb[int(rng.integers(len(nb)))].tolist()
+            pts.append((q, 3))
         rv = [abs(x) for x in axis_values(rng, rs, size)]
         zv = axis_values(rng, zs, size)
         pv = phis + [float(rng.uniform(-np.pi, np.pi))]
@@ -125,7 +138,7 @@ def gen_points(rng, s):
             segs = [(t[i], t[(i + 1) % 3]) for t in tris for i in range(3)]
         base = []
         for a, b in segs[:12]:
-            for t in (0.0, 1.0, 0.5, 0.25, 2.0, -1.0, 1 + 1e-12, 1e12, -1e12, 1e-170):
+            for t in (0.0, 1.0, 0.5, 0.25, 2.0, -1.0, 1 + 1e-12, 1e12, -1e12, 1e-170, 3.0, 7.0, 100.0, -5.0, 1e4, -1e6, 1e8):
                 base.append((a + t * (b - a), 2))
         for t in tris[:8]:
             n = np.cross(t[1] - t[0], t[2] - t[0])
@@ -148,7 +161,7 @@ def gen_points(rng, s):
                   [1e-8, 0, 0], [1, 1, 1], [0, 0, 1e11]):
             pts.append(([float(x) for x in p], 2))
     rng.shuffle(pts)
-    return pts[:80]
+    return pts[:120]
 
 
 def region(s, p, rel=1e-8):
@@ -164,6 +177,8 @@ def region(s, p, rel=1e-8):
     d = np.linalg.norm(p) / size
     if d >= 1e6:
         tags.append("far>=1e6")
+    elif d >= 1e3:
+        tags.append("far>=1e3")
     if c == "Cuboid":
         h = np.array(s["dimension"], float) / 2
         k = int(np.sum(np.abs(np.abs(p) - h) <= t))
@@ -198,6 +213,27 @@ def region(s, p, rel=1e-8):
                     if abs(r * np.sin(dq)) <= t:
                         tags.append("side-plane")
                         break
+            # exactly (to 1e-13 r2, inside the library's documented 1e-12 on-surface tolerance) on the magnet
+            # itself - face, edge, corner, apex - and not on an extension of these sets
+            e = 1e-13 * r2
+            ph = np.arctan2(p[1], p[0]) if r > 0 else 0.0
+            a1, a2 = np.deg2rad(p1), np.deg2rad(p2)
+
+            def ang_in(slack):
+                if r <= e and r1 <= e:
+                    return True
+                return any(a1 - slack <= ph + k * 2 * np.pi <= a2 + slack for k in (-2, -1, 0, 1, 2))
+
+            def ang_on():
+                return r > e and any(abs(ph + k * 2 * np.pi - a) * r <= e for k in (-2, -1, 0, 1, 2) for a in (a1, a2))
+            sl = e / max(r, e)
+            r_in = r1 - e <= r <= r2 + e
+            z_in = abs(p[2]) <= hh / 2 + e
+            on = ((abs(abs(p[2]) - hh / 2) <= e and r_in and ang_in(sl))
+                  or (min(abs(r - r1), abs(r - r2)) <= e and z_in and ang_in(sl))
+                  or (ang_on() and r_in and z_in))
+            if on:
+                tags.append("on-surface")
     elif c in ("Triangle", "Tetrahedron", "TriangularMesh"):
         v = np.array(s["vertices"], float)
         tris = [v] if c == "Triangle" else list(G.mesh_tris(s))
@@ -279,6 +315,18 @@ def gen_case(rng):
         s["polarization"] = p
     if cls in ("Sphere", "Circle") and rng.random() < 0.08:
         s["diameter"] = 0.0
+    if cls in ("Polyline", "Triangle") and rng.random() < 0.4:
+        # vertices on a coarse lattice near the origin (axis-parallel and diagonal edges): points on the extension
+        # of an edge are then EXACTLY collinear in floating point, however far away
+        k = len(s["vertices"]) if cls == "Polyline" else 3
+        while True:
+            v = rng.integers(-2, 3, size=(k, 3)).astype(float) * float(rng.choice([1.0, 0.5, 0.25]))
+            if cls == "Triangle":
+                if np.linalg.norm(np.cross(v[1] - v[0], v[2] - v[0])) > 0:
+                    break
+            elif np.all(np.linalg.norm(np.diff(v, axis=0), axis=1) > 0):
+                break
+        s["vertices"] = v.tolist()
     pts = gen_points(rng, s)
     nb = int(rng.choice(BATCH))
     pts = pts[:nb] if len(pts) >= nb else (pts * (nb // max(1, len(pts)) + 1))[:nb]
